@@ -78,4 +78,9 @@ theorem no_shared_channel : Gen.Shared.writtenAfterInit ⊆ ["fingerprint.finger
 example : (forwarded [.accept 1 [1], .accept 2 [2], .frame 2 (.windowUpdate 0 7), .frame 1 (.windowUpdate 0 9), .request 1 0, .close 2] 1).frames.wu = 9 := by
   decide
 
+/-- Obligation on facts REGENERATED from proxyserver.go: the per-connection code (serveConn, the handshake helper,
+updateConnContext) assigns to no field of the shared *Server and to no field of a local variable that merely
+aliases one (`x := server.f; x.g = ...`): what it builds for a connection it builds afresh. -/
+theorem per_connection_code_writes_no_shared_state : Gen.Shared.connSharedWrites = [] := by decide
+
 end Fp.C06
